@@ -19,6 +19,9 @@ class HarnessError(Exception):
     pass
 
 
+ANSWER_TIMEOUT_S = 120      # per answer; the stand-ins keep every single command far below this on the pinned tree
+
+
 def build(repo="/repo", release=False):
     hdir = os.path.join(VERIF, "harness")
     lock = os.path.join(repo, "Cargo.lock")
@@ -82,7 +85,13 @@ class Rac:
             t = threading.Thread(target=self._write, args=(data,))
             t.start()
             for c in part:
-                line = self.p.stdout.readline()
+                line = self._readline(ANSWER_TIMEOUT_S)
+                if line is None:
+                    # no answer in ANSWER_TIMEOUT_S seconds: the real library does not come back from this command (answers arrive in
+                    # order, so this is the one in flight).  Never hang the check: kill the process and report the command.
+                    self._restart()
+                    t.join(2)
+                    raise HarnessError(f"harness did not answer within {ANSWER_TIMEOUT_S} s (non-termination in the real library) while answering {json.dumps(c, ensure_ascii=False)[:300]}")
                 if not line:
                     t.join()
                     # the process died (abort / stack overflow): report which command was in flight
@@ -90,6 +99,26 @@ class Rac:
                 out.append(json.loads(line))
             t.join()
         return out
+
+    def _readline(self, timeout_s):
+        """one answer line, "" at end of file, None if nothing arrived in time (read by a helper thread so that a spinning harness cannot block us)"""
+        import queue
+        if getattr(self, "_q_proc", None) is not self.p:
+            self._q = queue.Queue()
+            self._q_proc = self.p
+
+            def pump(proc, q):
+                try:
+                    for ln in proc.stdout:
+                        q.put(ln)
+                except Exception:
+                    pass
+                q.put("")
+            threading.Thread(target=pump, args=(self.p, self._q), daemon=True).start()
+        try:
+            return self._q.get(timeout=timeout_s)
+        except queue.Empty:
+            return None
 
     def _write(self, data):
         try:
@@ -123,17 +152,27 @@ class Rac:
             return None
         return box["a"]
 
-    def ask_many_guarded(self, cmds, chunk=200, per_cmd_s=3.0):
+    def ask_many_guarded(self, cmds, chunk=200, per_cmd_s=3.0, max_timeouts=8):
         """like ask_many, but a command the real library does not answer within per_cmd_s seconds yields {"timeout": true}
-        (the harness process is killed and restarted) instead of hanging the check"""
+        (the harness process is killed and restarted) instead of hanging the check; after max_timeouts such commands the rest is not
+        asked any more and yields {"skipped": true} (a library that hangs on many inputs must not turn the check into an hours-long run)"""
         out = []
+        timeouts = 0
         for i in range(0, len(cmds), chunk):
             part = cmds[i:i + chunk]
+            if timeouts >= max_timeouts:
+                out.extend({"skipped": True} for _ in part)
+                continue
             ans = self._ask_chunk_timed(part, 10.0 + 0.05 * len(part))
             if ans is None:
                 ans = []
                 for c in part:
+                    if timeouts >= max_timeouts:
+                        ans.append({"skipped": True})
+                        continue
                     a = self._ask_chunk_timed([c], per_cmd_s)
+                    if a is None:
+                        timeouts += 1
                     ans.append(a[0] if a is not None else {"timeout": True})
             out.extend(ans)
         return out
